@@ -139,7 +139,10 @@ SolveResult minimize(auto && f, auto && x, auto && cb, const MinimizeOptions & o
     }
 
     // step
-    if (r_n == 0 || pred_red <= 0 || take_step) {
+    if (r_n != 0 && !(pred_red > 0)) {
+      // the linearized model predicts no reduction: x is stationary, stay there
+      status = SolveResult::Status::Ftol;
+    } else if (r_n == 0 || take_step) {
       x = xp;
 
       // execute callback on updated value
